@@ -35,6 +35,38 @@ inductive MTok (κ : Type)
   | text
   deriving DecidableEq, Repr
 
+/-- the part of a `call_matcher` the CO_ clauses work on: `yield_expressions` is a `shared_ptr` to a list of yield
+    expressions — modelled as an optional *list id* into a heap of lists, so that sharing is visible — and the installed
+    return handler holds its function and **a copy of that pointer** (`co_return_handler_t::yields`). -/
+structure CoSt (ε η : Type) where
+  ylist : Option Nat := none
+  lists : Nat → List ε := fun _ => []
+  next : Nat := 0
+  handler : Option (η × Option Nat) := none
+
+namespace CoSt
+variable {ε η : Type}
+/-- `yield_expressions = std::make_shared<yield_expr_list<signature>>()` -/
+def fresh (s : CoSt ε η) : CoSt ε η :=
+  { s with ylist := some s.next, lists := fun i => if i = s.next then [] else s.lists i, next := s.next + 1 }
+/-- `yield_expressions->push_back(expr)` (a null pointer would be undefined behaviour; the model leaves the state alone) -/
+def pushBack (s : CoSt ε η) (e : ε) : CoSt ε η :=
+  match s.ylist with
+  | some l => { s with lists := fun i => if i = l then s.lists l ++ [e] else s.lists i }
+  | none => s
+/-- `return_handler_obj.reset(new handler(h, yield_expressions))`: the handler copies the pointer as it is now -/
+def setHandler (s : CoSt ε η) (h : η) : CoSt ε η := { s with handler := some (h, s.ylist) }
+/-- the yield expressions the installed handler will walk when the coroutine body runs -/
+def handlerYields (s : CoSt ε η) : Option (η × List ε) :=
+  s.handler.map (fun p => (p.1, match p.2 with | some l => s.lists l | none => []))
+end CoSt
+
+/-- what the body of a mocked coroutine does, in order. -/
+inductive CoAct (ε : Type)
+  | yield (e : ε)        -- `co_yield e.expr(params)`
+  | ret                  -- `co_return func(params)`
+  deriving DecidableEq, Repr
+
 /-- what `hexdump` inserts into the stream, manipulators included. -/
 inductive HTok
   | sentry                 -- `stream_sentry s(os)`
